@@ -504,6 +504,27 @@ pub fn load_known_findings() -> Vec<KnownFinding> {
     }
 }
 
+static OPEN_KEYS: std::sync::OnceLock<HashSet<String>> = std::sync::OnceLock::new();
+
+/// load the open known-finding keys of the property under check (once, before any worker starts)
+pub fn init_open_keys(property: &str) {
+    let _ = OPEN_KEYS.set(open_keys(property));
+}
+
+pub fn is_open(key: &str) -> bool {
+    OPEN_KEYS.get().map(|k| k.contains(key)).unwrap_or(false)
+}
+
+/// A failure whose root cause is identified by `key`: counted (not raised) if the committed
+/// known_findings.json lists that key as open, a violation otherwise.
+pub fn known_or_fail(key: &str, msg: String) -> V {
+    if is_open(key) {
+        V::known(key)
+    } else {
+        V::fail(format!("[{key}] {msg}"))
+    }
+}
+
 /// keys of open (unfixed) known findings for a property
 pub fn open_keys(property: &str) -> HashSet<String> {
     load_known_findings()
@@ -601,9 +622,7 @@ pub fn run_property(prop: &Property, ctx: &Ctx) -> i32 {
     for f in findings.iter().filter(|f| f.status.as_deref() != Some("fixed")) {
         if let Some(r) = &f.replay {
             let path = Path::new(VERIF_ROOT).join(r);
-            std::env::set_var("VERIF_STRICT", "1");
             let res = replay_file(prop, &path);
-            std::env::remove_var("VERIF_STRICT");
             match res {
                 Ok((_, v)) => {
                     if v.fail.is_some() || v.known.is_some() {
